@@ -5,3 +5,17 @@ open FormulaeModel
 #print axioms C05.C05_block_width
 #print axioms C05.C05_khatriRao_rows
 #print axioms C05.C05_cell_order
+#print axioms C05.C05_plain_factor_indicatorCoded
+#print axioms C05.C05_treatment_factor_indicatorCoded
+#print axioms C05.C05_factor_indicator
+#print axioms C05.C05_factor_levels
+#print axioms C05.C05_trainGroup_block
+#print axioms C05.C05_trainGroup_entries
+#print axioms C05.C05_trainGroup_intercept
+#print axioms C05.C05_trainGroup_labels
+#print axioms C05.C05_trainGroup_nrows
+#print axioms C05.C05_trainGroup_single
+#print axioms C05.C05_factor_sum_counterexample
+#print axioms C05.C05_single_component
+#print axioms C05.C05_group_name_at_cell
+#print axioms C05.C05_trainGroup_width
